@@ -16,6 +16,7 @@ from mirsym.engine import NONE, SOME, It, UNIT
 from props.graphstub import SymGraph, GP, plist, subset, REF_CAST_OVER
 
 ID = 'C18'
+TECHNIQUE = 'symbolic execution of rustc MIR (path-forking) + z3 SMT queries per path; commit graph fully symbolic behind abstract index segments, real segments on small instances with symbolic ids; violations reported on the solver verdict (pub(super) code; no native replay)'
 CRATES = ['jj-lib']
 NATIVE = None
 NATIVE_CONFIRM = False
